@@ -40,6 +40,7 @@ func c20Run(t *testing.T, s *sim.Scn) *sim.Outcome {
 func c20Body(t *testing.T, s *sim.Scn, o *sim.Outcome) {
 	startT := time.Now()
 	ctx := context.Background()
+	sim.QuietLogs()
 	logger := logging.Logger("verif")
 	da := sim.NewSimDA()
 	disk := sim.NewDisk(nil)
